@@ -9,16 +9,16 @@ CHECKS = {
  "C01": ("A", "exploration", "runtime monitoring: vote/leader authority ledger over recorded hook events of live clusters under a seeded nemesis",
          "held on the executions explored: every leader change, vote reply and leader request of every run is judged by rules (one leader per term, majority of produced grants, one vote per voter and term, requests only from the term's leader) so a violation does not need the rare outcome 'two leaders' to be seen",
          "hooks report node state faithfully; schedules are sampled, not exhausted", "5 C01"),
- "C02": ("A", "exploration", "runtime monitoring: committed-entry ledger + shadow logs rebuilt from append/truncate/compact/commit events",
+ "C02": ("A+B", "exploration", "runtime monitoring: committed-entry ledger + shadow logs rebuilt from append/truncate/compact/commit events",
          "held on the executions explored: commit agreement, leader completeness at the election instant, no truncation/discard of committed entries, Raft commit rules on leaders and followers",
          "as C01", "5 C02"),
- "C03": ("A", "exploration", "runtime monitoring: recording state machine with unique command ids, global applied sequence vs committed ledger",
+ "C03": ("A+B", "exploration", "runtime monitoring: recording state machine with unique command ids, global applied sequence vs committed ledger",
          "held on the executions explored: every Update/Restore call of every state-machine incarnation is compared with one global sequence and with the committed log",
          "as C01", "5 C03"),
- "C04": ("A", "exploration", "runtime monitoring: global (index, term) ledger over every append, reopened log and final dump",
+ "C04": ("A+B", "exploration", "runtime monitoring: global (index, term) ledger over every append, reopened log and final dump",
          "held on the executions explored", "as C01", "5 C04"),
- "C05": ("A", "exploration", "runtime monitoring: every vote reply compared with the voter's state and term file at the reply hook; restarts compared with acknowledged term/vote",
-         "held on the executions explored (live elections with crashes at the vote hooks); the exhaustive voter-state grid of engine B is not built yet",
+ "C05": ("A+B", "fault_enumeration", "runtime monitoring: every vote reply compared with the voter's state and term file at the reply hook; restarts compared with acknowledged term/vote",
+         "voter state x request grid enumerated completely (2160 cases, each with a second candidate, a restart and a seeded sixth crashed at a vote hook), plus live elections with crashes at the vote hooks",
          "as C01", "5 C05"),
  "C06": ("A", "exploration", "runtime monitoring: durable frontier per node from flush events, counted at every leader commit advance",
          "held on the executions explored, across configurations reached by membership changes",
@@ -28,8 +28,8 @@ CHECKS = {
          "reads are bound only to updates accepted by the answering leader, as the property states", "5 C07"),
  "C08": ("A", "exploration", "runtime monitoring: configuration-chain rules on every configuration entry appended anywhere",
          "held on the executions explored (random legal and illegal requests with leader changes while actions are pending)", "as C01", "5 C08"),
- "C10": ("A", "fault_enumeration", "fault injection: kill -9 images taken at storage hook points of live nodes, reopened with the real code, compared with acknowledged state",
-         "held on the crash points the executions passed through (random selection per run; systematic per-script enumeration in engine B is not built yet)",
+ "C10": ("A+B", "fault_enumeration", "fault injection: kill -9 images taken at storage hook points of live nodes, reopened with the real code, compared with acknowledged state",
+         "engine B: every k-th hook occurrence of seeded wire-level scripts is a crash point (about 90 per script, 5 scripts per quick run); engine A: random crash points in live clusters; each image reopened with the real code and compared with what had been acknowledged",
          "process-kill model; stale lock file removed by the operator", "5 C10"),
  "C11": ("A", "exploration", "runtime monitoring: authority rules for non-voters / removed nodes on hook events, wire-level timeout-now injection",
          "held on the executions explored", "as C01", "5 C11"),
@@ -38,7 +38,7 @@ CHECKS = {
  "C17": ("A", "exploration", "runtime monitoring: bounded progress on a logical tick clock after faults stop + leader-stickiness rule on every vote request",
          "restated as bounded progress (400 ticks = 100 heartbeat timeouts, extension 4x before a violation is declared); unbounded 'eventually' is out of reach of a finite run",
          "tick clock stalls with the process; late convergence is inconclusive, not a violation", "5 C17"),
- "C19": ("A", "exploration", "runtime monitoring: status inequalities and monotonicity on GetInfo samples and at every main-loop step",
+ "C19": ("A+B", "exploration", "runtime monitoring: status inequalities and monotonicity on GetInfo samples and at every main-loop step",
          "held on the executions explored", "as C01", "5 C19"),
 }
 
@@ -54,9 +54,9 @@ NOT_APPLICABLE = {
 
 
 CHECKS.update({
- "C09": ("A", "exploration", "runtime monitoring: snapshot files read back at publish/store time and compared with the global applied sequence and committed log; quarantined (PROT_NONE) unmapped segments; FSM oracles across restore/install",
+ "C09": ("A+B", "exploration", "runtime monitoring: snapshot files read back at publish/store time and compared with the global applied sequence and committed log; quarantined (PROT_NONE) unmapped segments; FSM oracles across restore/install",
          "held on the executions explored (snapshot-heavy nemesis, directed stale-suffix installation, crash-heavy runs)", "as C01", "5 C09"),
- "C12": ("A", "exploration", "runtime monitoring: snapshot labels vs committed configuration ledger; membership after restart vs log suffix / label; directed interleaving of snapshot and membership commit via an ordering hook",
+ "C12": ("A+B", "exploration", "runtime monitoring: snapshot labels vs committed configuration ledger; membership after restart vs log suffix / label; directed interleaving of snapshot and membership commit via an ordering hook",
          "held on the executions explored", "as C01", "5 C12"),
  "C13": ("C", "exploration", "reference-model monitor: real log package vs in-memory abstract sequence after every operation of seeded programs, concurrent view readers, race-detector builds",
          "held on the programs explored (about 2 000 per quick run, all boundary sizes and removal indexes biased in)", "the model is the specification; views used as documented", "5 C13"),
@@ -65,7 +65,7 @@ CHECKS.update({
          "directory operations durable at return; 4 KiB page granularity over the last completed msync", "5 C14"),
  "C15": ("A", "exploration", "sanitizers + runtime monitoring: race detector / checkptr builds of the live-cluster engine, quarantined mappings, child-process death and Serve result monitor, task completion and shutdown monitor",
          "held on the executions explored, plain and -race", "race reports deduplicated by accessing-function pair; harness-only reports ignored", "5 C15"),
- "C18": ("D", "exploration", "round-trip monitor over boundary-biased generated values for every codec + truncated-prefix rejection + persisted 64-bit values through the public API",
+ "C18": ("D+B", "exploration", "round-trip monitor over boundary-biased generated values for every codec + truncated-prefix rejection + persisted 64-bit values through the public API",
          "held on the values explored (about 240 000 per quick run)", "exported wrappers call the unexported codecs unchanged", "5 C18"),
 })
 CHECKS["C20"] = ("A", "exploration", "runtime monitoring: every processed request tied to the identity handshake of its connection; two clusters on one network with address / resolver mix-ups and wire-level impostors; attempts to reuse served directories",
@@ -90,6 +90,8 @@ m = {
  "engines": [
   {"name": "A", "path": "harness/cmd/worker/enginea.go", "serves_properties": sorted(k for k, v in CHECKS.items() if "A" in v[0]),
    "kind_free_text": "live cluster of real nodes in one child process on an in-memory network, seeded nemesis + directed scenarios, hooks -> events.jsonl, offline oracles in harness/oracle"},
+  {"name": "B", "path": "harness/cmd/worker/engineb.go", "serves_properties": ["C02", "C03", "C04", "C05", "C09", "C10", "C12", "C18", "C19"],
+   "kind_free_text": "one real node served on the in-memory network; the harness plays all peers at wire level from a generated consistent Raft history (one leader per term, prefix-consistent leader logs, monotone committed prefix, snapshots of committed prefixes) delivered stale / duplicated / reordered over fresh and old connections; vote-state grid; crash-point enumeration; burst + fragmented framing"},
   {"name": "C", "path": "harness/cmd/worker/enginec.go", "serves_properties": ["C13", "C14"],
    "kind_free_text": "log package alone vs reference model, crash images (kill + page-subset power loss) at every log hook point"},
   {"name": "D", "path": "harness/cmd/worker/engined.go", "serves_properties": ["C18"],
